@@ -194,6 +194,7 @@ type Options struct {
 	Dir      string
 	Interval time.Duration // watch_interval of the http_endpoint provider
 	Requests int           // request goroutines per service
+	Ballast  int           // rules of the static rule set loaded besides the sources
 	Seed     int64
 }
 
@@ -245,8 +246,14 @@ func startEnv(h History, o Options) (*Env, error) {
 
 	providers := map[string]any{}
 
-	if hasKind(h, "fs") {
-		providers["file_system"] = map[string]any{"src": e.rulesDir, "watch": true}
+	// The file_system provider is always there: besides the file sources of the history it loads a
+	// static rule set of production size at start-up (never touched, never requested). With it a
+	// repository operation (clone, modify, swap) takes tens of microseconds instead of one, so a
+	// change that is not atomic leaves a window a request can actually hit.
+	providers["file_system"] = map[string]any{"src": e.rulesDir, "watch": true}
+
+	if err := os.WriteFile(filepath.Join(e.rulesDir, "aa-ballast.yaml"), ballast(o.Ballast, e.nonce), 0o600); err != nil {
+		return nil, err
 	}
 
 	if len(httpSrcs) > 0 {
